@@ -1,5 +1,7 @@
 package main
 
+import goast "go/ast"
+
 func init() { generators = append(generators, genResolver) }
 
 // genResolver: the resolver is modelled by hand (Model/Resolver.lean) and tied by correspondence; the
@@ -40,5 +42,34 @@ func genResolver() {
 		problem("repo.go: bestPackage not found")
 	}
 	l.defStr("bestPackageReturn", ret)
+	// what every call site outside the three wrappers hands as `compare` to the comparator (today: nil —
+	// Proofs/TransResolver.lean proves the translated comparator equal to the model for compare = nil)
+	var compareArgs []string
+	if f != nil {
+		idx := map[string]int{"bestPackage": 1, "sortPackages": 1, "comparePackages": 0}
+		for _, d := range f.f.Decls {
+			fd, ok := d.(*goast.FuncDecl)
+			if !ok || fd.Body == nil {
+				continue
+			}
+			if _, wrapper := idx[fd.Name.Name]; wrapper {
+				continue
+			}
+			goast.Inspect(fd.Body, func(n goast.Node) bool {
+				if c, ok := n.(*goast.CallExpr); ok {
+					if se, ok := c.Fun.(*goast.SelectorExpr); ok {
+						if i, ok := idx[se.Sel.Name]; ok && i < len(c.Args) {
+							compareArgs = append(compareArgs, f.src(c.Args[i]))
+						}
+					}
+				}
+				return true
+			})
+		}
+	}
+	if len(compareArgs) == 0 {
+		problem("repo.go: no call site of bestPackage / sortPackages / comparePackages found")
+	}
+	l.defStrList("comparatorCompareArgs", compareArgs)
 	l.write()
 }
